@@ -15,6 +15,7 @@ import (
 	"encoding/hex"
 	"fmt"
 	"io"
+	"net"
 	"net/netip"
 	"runtime"
 	"sort"
@@ -470,21 +471,24 @@ func (w *world) checkGot(index, size uint32, data []byte, pre, post snap, panick
 // (the client has to request again before blocks can fit).
 // A round = an honest delivery for every index inside one window.
 type live struct {
-	round         map[int]bool // nil: no window open
-	rounds        int          // consecutive honest rounds since the last corruption
-	poisoned      bool         // a non-authentic block was stored in a right-sized buffer
-	wrongSizeHeld bool         // a block was stored while the buffer had a wrong size
+	round         map[int]bool   // nil: no window open
+	rounds        int            // consecutive honest rounds since the last corruption
+	poisoned      bool           // a non-authentic block was stored in a right-sized buffer
+	wrongSizeHeld bool           // a block was stored while the buffer had a wrong size
+	cast          map[uint32]int // valid size votes cast by peers (counted here, not read from the client)
+	sizeAtRequest int            // len(Info) after the request that opened the window
 	reported      map[string]bool
 }
 
-func (w *world) honestLeads(st snap) bool {
+// honestLeads: the true size has strictly more votes CAST than any other size
+func (w *world) honestLeads() bool {
 	best := 0
-	for k, c := range st.votes {
+	for k, c := range w.lv.cast {
 		if int(k) != len(w.ti) && c > best {
 			best = c
 		}
 	}
-	return st.votes[uint32(len(w.ti))] > best
+	return w.lv.cast[uint32(len(w.ti))] > best
 }
 
 // liveGotEv: the event handler calls requestMetadata after a stored/duplicate block, which
@@ -493,12 +497,20 @@ func (w *world) liveGotEv(index, size uint32, spec string, pre, post snap) {
 	w.liveGot(index, size, spec, pre, post)
 }
 
-func (w *world) liveVote() {
+// liveVote: size 0 = no vote was cast (a resize)
+func (w *world) liveVote(size uint32, preComplete bool) {
+	if size >= 1 && size <= 128*1024*1024 && !preComplete {
+		if w.lv.cast == nil {
+			w.lv.cast = map[uint32]int{}
+		}
+		w.lv.cast[size]++
+	}
 	w.lv.rounds, w.lv.round = 0, nil
 }
 
 func (w *world) liveRequest(post snap) {
 	w.lv.round = map[int]bool{}
+	w.lv.sizeAtRequest = len(post.info)
 	if len(post.bits) == 0 {
 		w.lv.poisoned = false
 	}
@@ -533,7 +545,7 @@ func (w *world) liveGot(index, size uint32, spec string, pre, post snap) {
 	w.lv.round = nil
 	w.lv.rounds++
 	kind := ""
-	switch lead := w.honestLeads(post); {
+	switch lead := w.honestLeads(); {
 	case !lead && w.lv.rounds >= 2:
 		kind = "liveness:hostile-size-votes:size-pinned"
 	case !lead:
@@ -541,6 +553,8 @@ func (w *world) liveGot(index, size uint32, spec string, pre, post snap) {
 		kind = "liveness:forged-block-in-buffer:single-honest-round"
 	case w.lv.wrongSizeHeld:
 		kind = "liveness:honest-majority-after-wrong-size-block"
+	case w.lv.sizeAtRequest != n:
+		kind = "liveness:honest-plurality-not-followed"
 	case w.lv.rounds == 1:
 		kind = "liveness:honest-round-from-empty-buffer"
 	default:
@@ -553,7 +567,7 @@ func (w *world) liveGot(index, size uint32, spec string, pre, post snap) {
 		if !w.lv.reported[kind] {
 			w.lv.reported[kind] = true
 			w.c.Violate(kind, fmt.Sprintf("valid metadata; %d honest round(s) (an honest block for every index) since the last corruption, honest size leads=%v, not complete: %s",
-				w.lv.rounds, w.honestLeads(post), post.digest()), w.c.Case())
+				w.lv.rounds, w.honestLeads(), post.digest()), w.c.Case())
 		}
 	}
 }
@@ -563,6 +577,7 @@ func (w *world) liveGot(index, size uint32, spec string, pre, post snap) {
 func (w *world) opVote(size uint32) {
 	defer w.flushPending()
 	var err error
+	pre := w.snap()
 	p := vhlib.Recover(func() { err = tor.VerifMetadataVote(w.t, size) })
 	op := fmt.Sprintf("vote %d", size)
 	if p != "" {
@@ -572,7 +587,7 @@ func (w *world) opVote(size uint32) {
 	}
 	w.c.Emit(op, errTag(err)+" "+w.snap().digest())
 	w.c.Count("vote/"+errTag(err), op, err == nil)
-	w.liveVote()
+	w.liveVote(size, pre.complete)
 }
 
 func (w *world) opResize(size uint32) {
@@ -587,7 +602,7 @@ func (w *world) opResize(size uint32) {
 	}
 	w.c.Emit(op, errTag(err)+" "+w.snap().digest())
 	w.c.Count("resize/"+errTag(err), op, err == nil)
-	w.liveVote()
+	w.liveVote(0, false)
 }
 
 func (w *world) opReq(all bool) {
@@ -667,9 +682,9 @@ func (w *world) opVoteEv(size uint32) {
 	}
 	w.c.Emit(op, "ev guess-ok=1 picks-ok=1 "+post.digest())
 	w.c.Count("votev", op, len(post.votes) != len(pre.votes))
-	w.liveVote()
-	if len(post.votes) != len(pre.votes) || post.votes[size] != pre.votes[size] {
-		w.liveRequest(post) // the handler requests right after an accepted vote
+	w.liveVote(size, pre.complete)
+	if size >= 1 && size <= 128*1024*1024 && !pre.complete {
+		w.liveRequest(post) // the handler requests right after a vote it has to accept
 	}
 	if pre.complete && (!post.complete || !bytes.Equal(pre.info, post.info)) {
 		w.c.Violate("changed-after-complete", "vote changed a complete torrent", w.c.Case())
@@ -714,6 +729,153 @@ func (w *world) opGotEv(index, size uint32, spec string) {
 				w.c.Violate("completion-not-announced", "a peer did not receive PeerMetadataComplete with the accepted Info", w.c.Case())
 			}
 		}
+	}
+}
+
+// opJoin: a new peer joins through the REAL TorAddPeer handler (real peer.Run with its
+// reader/writer goroutines over an in-memory connection).  The remote side, played here,
+// reads storrent's extended handshake, asks for every metadata block and leaves.
+// Authenticity seen from the serving side: before completion storrent announces no
+// metadata_size and answers every request with a reject; after completion it serves
+// exactly the authentic dictionary.  The peer is gone when the op ends.
+func (w *world) opJoin() {
+	defer w.flushPending()
+	const wait = 15 * time.Second
+	pre := w.snap()
+	n := len(w.ti)
+	a, b := net.Pipe()
+	defer b.Close()
+	id := make([]byte, 20)
+	id[0] = 0xEE
+	var viol [][2]string
+	bad := func(kind, detail string) { viol = append(viol, [2]string{kind, detail}) }
+	var rp *peer.Peer
+	p := vhlib.Recover(func() {
+		rp = peer.New("", a, netip.AddrPortFrom(netip.AddrFrom4([4]byte{10, 9, 9, 9}), 0), true,
+			protocol.HandshakeResult{Hash: w.t.Hash, Id: id, Extended: true})
+		rp.Log.SetOutput(io.Discard)
+		w.t.Event <- peer.TorAddPeer{Peer: rp, Init: nil}
+	})
+	hung := false
+	if p == "" {
+		p, hung = w.runEvents()
+	}
+	if p != "" || hung {
+		bad("panic:TorAddPeer", p+fmt.Sprint(" hung=", hung))
+	} else {
+		br := bufio.NewReader(b)
+		bw := bufio.NewWriter(b)
+		read := func() (protocol.Message, error) {
+			b.SetReadDeadline(time.Now().Add(wait))
+			return protocol.Read(br, nil)
+		}
+		send := func(m protocol.Message) error {
+			b.SetWriteDeadline(time.Now().Add(wait))
+			if err := protocol.Write(bw, m, nil); err != nil {
+				return err
+			}
+			return bw.Flush()
+		}
+		// storrent's extended handshake
+		var hs *protocol.Extended0
+		for hs == nil {
+			m, err := read()
+			if err != nil {
+				bad("serving:no-extended-handshake", err.Error())
+				break
+			}
+			if e, ok := m.(protocol.Extended0); ok {
+				hs = &e
+			}
+		}
+		if hs != nil {
+			switch {
+			case !pre.complete && hs.MetadataSize != 0:
+				bad("serving:metadata-size-before-complete", fmt.Sprintf("metadata_size %d announced while the metadata is not verified (buffer %d bytes, %d blocks held)", hs.MetadataSize, len(pre.info), len(pre.bits)))
+			case pre.complete && int(hs.MetadataSize) != n:
+				bad("serving:wrong-metadata-size-after-complete", fmt.Sprint(hs.MetadataSize))
+			}
+			err := send(protocol.Extended0{Messages: map[string]uint8{"ut_metadata": protocol.ExtMetadata}})
+			top := nchunks(n)
+			if k := nchunks(len(pre.info)); k > top {
+				top = k
+			}
+			for i := 0; err == nil && i <= top; i++ {
+				err = send(protocol.ExtendedMetadata{Subtype: hs.Messages["ut_metadata"], Type: 0, Piece: uint32(i)})
+				if err != nil {
+					break
+				}
+				var ans *protocol.ExtendedMetadata
+				for ans == nil {
+					var m protocol.Message
+					m, err = read()
+					if err != nil {
+						bad("serving:no-answer-to-metadata-request", fmt.Sprintf("block %d: %v", i, err))
+						break
+					}
+					if e, ok := m.(protocol.ExtendedMetadata); ok {
+						ans = &e
+					}
+				}
+				if ans == nil {
+					break
+				}
+				switch {
+				case !pre.complete && ans.Type != 2:
+					k := "blank"
+					for _, bit := range pre.bits {
+						if bit == i {
+							k = "held-block"
+						}
+					}
+					bad("serving:unverified-metadata:"+k, fmt.Sprintf("request for block %d answered with type %d, %d bytes, total_size %d before the metadata is verified", i, ans.Type, len(ans.Data), ans.TotalSize))
+				case pre.complete && i < nchunks(n) && (ans.Type != 1 || int(ans.TotalSize) != n || !bytes.Equal(ans.Data, blockOf(w.ti, i, CS))):
+					bad("serving:wrong-data-after-complete", fmt.Sprintf("block %d: type %d, %d bytes, total_size %d", i, ans.Type, len(ans.Data), ans.TotalSize))
+				case pre.complete && i >= nchunks(n) && ans.Type != 2:
+					bad("serving:data-beyond-end", fmt.Sprintf("block %d: type %d", i, ans.Type))
+				}
+			}
+			if err != nil && len(viol) == 0 {
+				bad("serving:connection-broke", err.Error())
+			}
+		}
+	}
+	// the remote side leaves; wait until the torrent has forgotten the peer
+	b.Close()
+	deadline := time.Now().Add(wait)
+	for rp != nil {
+		pp, h := w.runEvents()
+		if pp != "" || h {
+			bad("panic:peer-departure", pp+fmt.Sprint(" hung=", h))
+			break
+		}
+		gone := true
+		for _, q := range w.t.VerifPeers() {
+			gone = gone && q != rp
+		}
+		if gone {
+			break
+		}
+		if time.Now().After(deadline) {
+			bad("hang:joined-peer-never-left", "")
+			break
+		}
+		time.Sleep(200 * time.Microsecond)
+	}
+	w.takePicks()
+	post := w.snap()
+	w.c.Emit("join", "join "+post.digest())
+	phase := "incomplete"
+	if pre.complete {
+		phase = "complete"
+	} else if len(pre.bits) > 0 {
+		phase = "blocks-held"
+	} else if len(pre.info) > 0 {
+		phase = "buffer-allocated"
+	}
+	w.c.Count("join/"+phase, "", false)
+	for _, v := range viol {
+		w.c.Violate(v[0], v[1], w.c.Case())
 	}
 }
 
@@ -898,7 +1060,9 @@ func genRandom(c *vhlib.Ctx, r *vhlib.Rand) {
 // randomOp: one operation of the general stream
 func (w *world) randomOp(r *vhlib.Rand) {
 	n := len(w.ti)
-	switch k := r.Intn(100); {
+	switch k := r.Intn(104); {
+	case k >= 100:
+		w.opJoin()
 	case k < 12:
 		w.honestVotes(r, 1)
 	case k < 20:
@@ -923,20 +1087,7 @@ func (w *world) randomOp(r *vhlib.Rand) {
 
 // honestMajority: honest peers vote until the true size strictly leads
 func (w *world) honestMajority(r *vhlib.Rand) {
-	for {
-		st := w.snap()
-		if st.complete {
-			return
-		}
-		best := 0
-		for k, c := range st.votes {
-			if int(k) != len(w.ti) && c > best {
-				best = c
-			}
-		}
-		if st.votes[uint32(len(w.ti))] > best {
-			return
-		}
+	for !w.honestLeads() && !w.snap().complete {
 		w.honestVotes(r, 1)
 	}
 }
@@ -1001,10 +1152,25 @@ func genOutvoted(c *vhlib.Ctx, r *vhlib.Rand) {
 // L0: honest round from an empty buffer completes (any order, duplicates)
 func genCleanRound(c *vhlib.Ctx, r *vhlib.Rand) {
 	w := makeWorld(c, r, true, 1)
+	// peers join at every phase of the exchange
+	if r.Chance(30) {
+		w.opJoin() // before any vote
+	}
 	w.honestVotes(r, 1+r.Intn(2))
 	w.opReq(r.Bool())
+	if r.Chance(30) {
+		w.opJoin() // buffer allocated, nothing held
+	}
+	if nchunks(len(w.ti)) > 1 && r.Chance(40) {
+		i := r.Intn(nchunks(len(w.ti)))
+		w.got(r, uint32(i), uint32(len(w.ti)), fmt.Sprintf("H%d", i))
+		w.opJoin() // an (authentic but unverified) block is held
+	}
 	w.honestRound(r, r.Bool())
 	c.Count("scenario/clean-round", "", false)
+	if r.Chance(50) {
+		w.opJoin() // after completion: the authentic dictionary is served
+	}
 	// later messages are ignored
 	i, sz, spec := hostileBlock(r, len(w.ti))
 	w.got(r, i, sz, spec)
@@ -1024,12 +1190,48 @@ func genPoisoned(c *vhlib.Ctx, r *vhlib.Rand) {
 		tail = CS
 	}
 	w.got(r, uint32(i), uint32(n), fmt.Sprintf("X%d:%d", i, r.Intn(tail)))
+	if r.Chance(50) {
+		w.opJoin() // a forged block is held
+	}
 	w.honestRound(r, false)
 	c.Count("scenario/poisoned-round", "", false)
 	if !w.snap().complete { // the live oracle has reported the single round; a second one must do
+		if r.Chance(30) {
+			w.opJoin() // after a reset
+		}
 		w.opReq(r.Bool())
 		w.honestRound(r, false)
 	}
+}
+
+// L5: MANY distinct hostile sizes are voted before the first honest vote, one vote each;
+// the honest peers then give the true size strictly the most votes cast
+func genManySizes(c *vhlib.Ctx, r *vhlib.Rand) {
+	w := makeWorld(c, r, true, 1)
+	n := len(w.ti)
+	k := r.PickInt(15, 16, 17, 40, 200)
+	for j := 0; j < k; j++ {
+		sz := uint32(n + 1 + 7*j)
+		if j%2 == 1 && n > j+1 {
+			sz = uint32(n - 1 - j/2)
+		}
+		if j < 3 && r.Bool() {
+			w.opVoteEv(sz)
+		} else {
+			w.opVote(sz)
+		}
+	}
+	if r.Bool() {
+		w.opReq(r.Bool())
+	}
+	w.honestVotes(r, 2)
+	w.opReq(r.Bool())
+	w.honestRound(r, r.Bool())
+	if !w.snap().complete {
+		w.opReq(r.Bool())
+		w.honestRound(r, false)
+	}
+	c.Count(fmt.Sprintf("scenario/many-sizes/%d", k), "", false)
 }
 
 // L3: departed hostile peers have out-voted the honest ones
@@ -1075,6 +1277,8 @@ func replay(c *vhlib.Ctx) {
 			w.opReq(false)
 		case f[0] == "reqn":
 			w.opReq(true)
+		case f[0] == "join":
+			w.opJoin()
 		case f[0] == "got" && len(f) == 4:
 			w.opGot(u32(f[1]), u32(f[2]), f[3])
 		case f[0] == "gotev" && len(f) >= 4:
@@ -1104,8 +1308,10 @@ func main() {
 				genTwoRounds(c, c.R)
 			case k == 8:
 				genPoisoned(c, c.R)
-			case i%20 == 9:
+			case i%30 == 9:
 				genPinned(c, c.R)
+			case i%30 == 19:
+				genManySizes(c, c.R)
 			default:
 				genOutvoted(c, c.R)
 			}
